@@ -11,6 +11,11 @@ OMAP = OBJ('OpticalMap')
 
 # _WorkflowCoordinator.execute: contract in specs/workflow.py (verified there; used here through its contract)
 
+def _config(C):
+    from specs.workflow import _config_primary, _config_secondary
+    return _config_primary(C) + _config_secondary(C)
+
+
 def _second_ensures(C, res):
     """the second pass runs on the SAME reference list as the first pass, on the unaligned fragments of the first-pass rows (ghosts of the call site)"""
     cl = []
@@ -52,7 +57,7 @@ secondPassChecked = FunctionSpec(
     params=dict(self=MP_, alignmentResultRows=LIST(ROW), queryMaps=LIST(OMAP), referenceMaps=LIST(OMAP)), returns=LIST(ROW),
     requires=lambda C: [('first_pass_rows_fit_the_queries', _rows_fit_the_queries(C)),
                         ('peak_count_nonnegative', C.self.peaksSelector.count >= 0),
-                        ('cpus_option_absent_or_positive', z3.Or(C.self.args.numberOfCpus.none, C.self.args.numberOfCpus.val >= 1))],
+                        ('cpus_option_absent_or_positive', z3.Or(C.self.args.numberOfCpus.none, C.self.args.numberOfCpus.val >= 1))] + _config(C),
     ensures=_second_ensures, serves=('C08', 'C10', 'C05'),
     ghost={'g2refs': _eo, 'g2queries': _eo, 'g2rows': lambda C: C._e.fresh_list(ROW, 'g2rows', n=z3.IntVal(0))},
     ghost_at={'call:execute#0': _second_log}, inline={'AlignmentResultRow.setAlignedRest'},
@@ -85,7 +90,7 @@ def _mode(C, name):
 def _requires(C):
     return [('known_multi_pass_mode', z3.Or(*[_mode(C, m) for m in ('best', 'separate', 'joined', 'all')])),
             ('peak_count_nonnegative', C.self.peaksSelector.count >= 0),
-            ('cpus_option_absent_or_positive', z3.Or(C.self.args.numberOfCpus.none, C.self.args.numberOfCpus.val >= 1))]
+            ('cpus_option_absent_or_positive', z3.Or(C.self.args.numberOfCpus.none, C.self.args.numberOfCpus.val >= 1))] + _config(C)
 
 
 def _raw(x):
